@@ -25,26 +25,26 @@ package crl
 
 //@ func CRLRevocationChecker.Provision
 //@   props C15 C19 C20 C03
-//@   requires c != nil && crlConfig != nil && crlConfig.CDPConfig != nil && logger != nil && nolocks() && certsNonNil(crlConfig.TrustedSignatureCerts)
-//@   assigns *
+//@   requires c != nil && crlConfig != nil && crlConfig.CDPConfig != nil && logger != nil && norwlocks() && unheld(&workDirInUseMutex) && unheld(&crlUpdateMutex) && certsNonNil(crlConfig.TrustedSignatureCerts)
+//@   assigns L.held, crlrepository.Entry.CRLStore, crlrepository.Entry.Loaded, crlrepository.Entry.LastUpdateSignatureVerifyFailed, crlrepository.Entry.LastUpdateSignature, crlrepository.Entry.Chains, H.crlrepository.Repository.crlRepository, M.map[string]*crlrepository.Entry, crlstore.MapStore.Map, M.map[string][]uint8, crlstore.LevelDbStore.Db, H.crlloader.MultiSchemesCRLLoader, H.crlloader.URLLoader, H.crlloader.FileLoader, X.ldbhas, X.fs, X.net, X.retry, X.stream, X.hacc, X.hkind, E.uint8, E.any, E.string, fresh:E.*core.CertificateChainEntry, fresh:E.core.CertificateChain, fresh:E.core.CertificateChainEntry, *c, M.map[string]int, G.crl.workDirsInUse, G.crl.lastCrlUpdateFinishTime, X.ticker
 //@   ensures[C03,C15] err == nil ==> checkerOK(c)
 
 //@ func CRLRevocationChecker.Cleanup
 //@   props C20 C13
 //@   requires c != nil && nolocks() && (c.crlRepository != nil ==> repoOK(c.crlRepository))
-//@   assigns *
+//@   assigns L.held, crlrepository.Entry.CRLStore, crlrepository.Entry.Loaded, crlrepository.Entry.LastUpdateSignatureVerifyFailed, crlrepository.Entry.LastUpdateSignature, crlrepository.Entry.Chains, H.crlrepository.Repository.crlRepository, M.map[string]*crlrepository.Entry, X.fs, X.retry, X.ticker, M.map[string]int, G.crl.workDirsInUse
 //@   ensures[C20] stop_channel_closed: old(c.crlUpdateStop) != nil ==> called(close#1)
 
 //@ func CRLRevocationChecker.addCrlUrlsFromConfig
 //@   props C15 C19
 //@   requires checkerOK(c) && norwlocks() && chains != nil && chainsOK(chains)
-//@   assigns *
+//@   assigns L.held, crlrepository.Entry.CRLStore, crlrepository.Entry.Loaded, crlrepository.Entry.LastUpdateSignatureVerifyFailed, crlrepository.Entry.LastUpdateSignature, crlrepository.Entry.Chains, H.crlrepository.Repository.crlRepository, M.map[string]*crlrepository.Entry, crlstore.MapStore.Map, M.map[string][]uint8, crlstore.LevelDbStore.Db, H.crlloader.MultiSchemesCRLLoader, H.crlloader.URLLoader, H.crlloader.FileLoader, X.ldbhas, X.fs, X.net, X.retry, X.stream, X.hacc, X.hkind, E.uint8, E.any, E.string, fresh:E.*core.CertificateChainEntry, fresh:E.core.CertificateChain, fresh:E.core.CertificateChainEntry
 //@   ensures checkerOK(c) && norwlocks() && chainsOK(chains)
 //@   loop 1 invariant checkerOK(c) && norwlocks() && chainsOK(chains)
 //@ func CRLRevocationChecker.addCrlFilesFromConfig
 //@   props C15 C19
 //@   requires checkerOK(c) && norwlocks() && chains != nil && chainsOK(chains)
-//@   assigns *
+//@   assigns L.held, crlrepository.Entry.CRLStore, crlrepository.Entry.Loaded, crlrepository.Entry.LastUpdateSignatureVerifyFailed, crlrepository.Entry.LastUpdateSignature, crlrepository.Entry.Chains, H.crlrepository.Repository.crlRepository, M.map[string]*crlrepository.Entry, crlstore.MapStore.Map, M.map[string][]uint8, crlstore.LevelDbStore.Db, H.crlloader.MultiSchemesCRLLoader, H.crlloader.URLLoader, H.crlloader.FileLoader, X.ldbhas, X.fs, X.net, X.retry, X.stream, X.hacc, X.hkind, E.uint8, E.any, E.string, fresh:E.*core.CertificateChainEntry, fresh:E.core.CertificateChain, fresh:E.core.CertificateChainEntry
 //@   ensures checkerOK(c) && norwlocks() && chainsOK(chains)
 //@   loop 1 invariant checkerOK(c) && norwlocks() && chainsOK(chains)
 
@@ -58,7 +58,7 @@ package crl
 //@   props C15 C13 C07
 //@   requires checkerOK(c) && norwlocks() && unheld(&crlUpdateMutex)
 //@   noglobals
-//@   assigns *
+//@   assigns L.held, crlrepository.Entry.CRLStore, crlrepository.Entry.Loaded, crlrepository.Entry.LastUpdateSignatureVerifyFailed, crlrepository.Entry.LastUpdateSignature, crlrepository.Entry.Chains, H.crlrepository.Repository.crlRepository, M.map[string]*crlrepository.Entry, crlstore.MapStore.Map, M.map[string][]uint8, crlstore.LevelDbStore.Db, H.crlloader.MultiSchemesCRLLoader, H.crlloader.URLLoader, H.crlloader.FileLoader, X.ldbhas, X.fs, X.net, X.retry, X.stream, X.hacc, X.hkind, E.uint8, E.any, E.string, fresh:E.*core.CertificateChainEntry, fresh:E.core.CertificateChain, fresh:E.core.CertificateChainEntry, G.crl.lastCrlUpdateFinishTime
 
 //@ func CRLRevocationChecker.updateWasRecentlyFinished
 //@   props C15
@@ -68,11 +68,11 @@ package crl
 
 //@ func RegisterCRLWorkDirUsage
 //@   props C20 C13
-//@   requires crlConfig != nil && nolocks()
+//@   requires crlConfig != nil && unheld(&workDirInUseMutex)
 //@   assigns L.held, M.map[string]int, G.crl.workDirsInUse
-//@   ensures nolocks()
+//@   ensures sameLocks()
 //@ func DeregisterCRLWorkDirUsage
 //@   props C20 C13
-//@   requires crlConfig != nil && nolocks()
+//@   requires crlConfig != nil && unheld(&workDirInUseMutex)
 //@   assigns L.held, M.map[string]int, G.crl.workDirsInUse
-//@   ensures nolocks()
+//@   ensures sameLocks()
